@@ -131,8 +131,13 @@ def loads(s: str, parser=None, grammar=None, decoder=None, **kwargs):
     """
     if isinstance(s, bytes):
         # Someone passed us an old-style bytes sequence.  Although it isn't
-        # a string, we can deal with it:
-        s = s.decode()
+        # a string, we can deal with it.  If only the beginning can be
+        # decoded (e.g. a label with image data after it), take that, as
+        # load() does for files:
+        try:
+            s = s.decode()
+        except UnicodeDecodeError as err:
+            s = s[:err.start].decode()
 
     if parser is None:
         parser = OmniParser(
